@@ -214,6 +214,20 @@ func reshape(v reflect.Value, next func(n int) int, depth int) int {
 				n += reshape(v.Index(i), next, depth+1)
 			}
 		}
+		// the same pointer in several slots of a slice of pointers (also in its spare
+		// capacity): legal in a caller's value; the data changes, so only where allowed
+		if aliasRows && t.Elem().Kind() == reflect.Ptr && v.Len() >= 2 && next(2) == 0 {
+			i, j := next(v.Len()), next(v.Len())
+			if i != j && !v.Index(j).IsNil() {
+				v.Index(i).Set(v.Index(j))
+				n++
+			}
+			if full := v.Slice(0, v.Cap()); full.Len() > v.Len() {
+				for k := v.Len(); k < full.Len(); k++ {
+					full.Index(k).Set(v.Index(next(v.Len())))
+				}
+			}
+		}
 		// rows of a slice of slices that share memory: what callers' code leaves behind
 		// (a row deleted with copy(rows, rows[1:]), a matrix laid over one flat buffer,
 		// one default row stored in several places). Only where allowed to change the
